@@ -60,7 +60,9 @@ def tla_set(xs):
 def tla_val(x):
     if isinstance(x, bool):
         return "TRUE" if x else "FALSE"
-    if isinstance(x, (list, tuple, set, frozenset)):
+    if isinstance(x, tuple):        # Python tuple = TLA+ sequence, list/set = TLA+ set
+        return "<<" + ", ".join(tla_val(v) for v in x) + ">>"
+    if isinstance(x, (list, set, frozenset)):
         return tla_set(sorted(x, key=lambda v: (str(type(v)), v)))
     if isinstance(x, str):
         return '"%s"' % x
